@@ -103,7 +103,8 @@ def model_check_many(jobs, parallel=4):
         return [f.result() for f in futs]
 
 
-_VERDICT = re.compile(r'<<"VERDICT-FAIL", ("?)([^,"]+)\1, "([^"]*)">>')
+# TLC pretty-prints long tuples over several lines: allow arbitrary whitespace between the parts
+_VERDICT = re.compile(r'<<\s*"VERDICT-FAIL",\s*("?)([^,"]+)\1,\s*"([^"]*)"\s*>>')
 
 
 def _validate_chunk(module, cfg_name, path, nrec, workers, timeout, extra_env):
@@ -116,12 +117,14 @@ def _validate_chunk(module, cfg_name, path, nrec, workers, timeout, extra_env):
     if not res["completed"]:
         raise TLCError("trace validation run failed (%s, %s):\n%s" % (module, path, out[-3000:]))
     fails = [(m.group(2), m.group(3)) for m in _VERDICT.finditer(out)]
+    if out.count('"VERDICT-FAIL"') != len(fails):
+        raise TLCError("could not parse every VERDICT-FAIL line of %s:\n%s" % (path, out[-2000:]))
     m = re.search(r'<<"VERDICT-COUNT", (\d+)>>', out)
     judged = int(m.group(1)) if m else None
     res["fails"] = fails
     res["judged"] = judged
     res["notes"] = [(m.group(2), m.group(3)) for m in re.finditer(
-        r'<<"VERDICT-NOTE", ("?)([^,"]+)\1, "([^"]*)">>', out)]
+        r'<<\s*"VERDICT-NOTE",\s*("?)([^,"]+)\1,\s*"([^"]*)"\s*>>', out)]
     return res
 
 
